@@ -19,6 +19,12 @@ def cluster_line(ids, timeout=0):
     return "cluster %s %d" % (",".join(str(i) for i in ids), timeout)
 
 
+def cluster_line_grpc(ids, timeout=0):
+    """the instances talk through dirk's own gRPC sender over mutual TLS on loopback (ids 1..n, n <= 5: one test
+    certificate per instance)"""
+    return "cluster %s %d grpc" % (",".join(str(i) for i in ids), timeout)
+
+
 def gen_line(ini, acct, t, n, fault="-", client="client1"):
     return "gen %d %s %s %d %d %s" % (ini, hx(client), hx(acct), t, n, fault)
 
@@ -62,6 +68,12 @@ def c12_scenarios(r, tier):
                                           gen_line(1, "DW/x4", 4, 5), gen_line(1, "DW/x5", 3, 5)]))
     for f in ("commitpub:commit:0:2", "commitsig:commit:0:3"):
         out.append(("tampered-commit-reply " + f, [cluster_line(ids), gen_line(1, "DW/x6", 2, 3, f)]))
+    # the same over the real transport (dirk's gRPC sender, mutual TLS, the receiver handlers behind the client-info interceptor)
+    for (n_, t_) in [(2, 2), (3, 2), (3, 3), (4, 3), (5, 3)] + ([(4, 4), (5, 4), (5, 5)] if tier == "thorough" else []):
+        ids_ = list(range(1, n_ + 1))
+        acct = "DW/rpc%d_%d" % (n_, t_)
+        out.append(("grpc n=%d t=%d" % (n_, t_), [cluster_line_grpc(ids_), gen_line(ids_[(n_ + t_) % n_], acct, t_, n_), "holds %s" % hx(acct), "relations %s" % hx(acct),
+                                                 "recover %s" % hx(acct), "use %s" % hx(acct), "shares %s" % hx(acct), gen_line(ids_[0], acct, t_, n_)]))
     # the client leaves the passphrase out (the instances' configured generation passphrase applies): the account must be
     # just as usable
     for (n_, t_, ids_) in [(3, 2, [1, 2, 3]), (2, 2, [1, 2])]:
@@ -120,6 +132,18 @@ def c13_scenarios(tier):
             acct = "DW/o%d" % k
             out.append(("n=%d t=%d overlap" % (n, t), "overlap", [cluster_line(ids), "gens %d %s %s %d %d 360 %d %d %d" % (ids[0], hx("client1"), hx(acct), t, n, ids[1], max(2, (n - 1) // 2 + 1), n - 1),
                                                                    "holds %s" % hx(acct)]))
+        # over the real transport: a request or a reply replaced by a gRPC status (what a proxy, a server-side timeout or
+        # a dying peer produces), for every message kind, recipient and a range of codes
+        if ids == list(range(1, n + 1)) and n <= 5:
+            for kind_ in ("statusreply", "statusreq"):
+                for m_ in ("prepare", "execute", "contribute"):
+                    for to in ids:
+                        for code in (["DeadlineExceeded", "Canceled", "Unavailable"] if tier != "thorough" else ["DeadlineExceeded", "Canceled", "Unavailable", "Internal", "ResourceExhausted"]):
+                            k += 1
+                            acct = "DW/r%d" % k
+                            f = "%s:%s:0:%d:%s" % (kind_, m_, to, code)
+                            out.append(("grpc n=%d t=%d %s" % (n, t, f), f, [cluster_line_grpc(ids), gen_line(ini, acct, t, n, f), "holds %s" % hx(acct),
+                                                                              gen_line(ids[-1], acct + "ok", t, n), "holds %s" % hx(acct + "ok")]))
         # duplicate delivery is harmless
         a, b = ids[0], ids[1]
         k += 1
